@@ -15,7 +15,7 @@ from ..sched import Deadlock, HarnessTimeout, Scheduler, StepLimit, installed
 from ..world import World, global_state_guard
 from .c14 import NTYPES, SimRaise, _handler
 
-SCENARIOS = ["ctx", "inherit", "register", "eval", "switchctx"]
+SCENARIOS = ["ctx", "inherit", "register", "eval", "switchctx", "eval"]  # (eval twice: two sub-scenarios share it)
 
 
 class ThreadScript:
@@ -153,7 +153,7 @@ class C15(Property):
     ASSUMPTIONS = ["the GIL makes single bytecodes atomic", "no default handler is (re)registered while threads run"]
     REAL = ["labrea/* (unmodified) executed by real threading.Thread objects"]
     STUBS = ["threading.Lock objects reachable from labrea modules (SimLock)", "the choice of which thread runs (seeded scheduler)", "user callables", "request types and handlers"]
-    QUICK = {"runs": 2500, "wall": 45}
+    QUICK = {"runs": 4000, "wall": 60}
     THOROUGH = {"runs": 400000, "wall": 540}
     NONTRIVIAL_MEASURE = "interleaving_with_preemptions"
 
@@ -214,7 +214,7 @@ class C15(Property):
             # TypeError half-way; what it leaves behind of its own aliases is its business, the others' registrations are not
             regs[f"T{i}"] = [{"alias": a, "how": rng.choice(["register", "overload", "overload", "overload-failing"]), "tag": f"{a}@T{i}"} for a in mine]
         case["regs"] = regs
-        if rng.random() < 0.45:
+        if rng.random() < 0.3:
             # (one thread implements the interface, the other registers on the members directly: two routes to one table)
             case["iface"] = True
             for r_ in regs["T0"]:
@@ -226,7 +226,7 @@ class C15(Property):
         case["n_datasets"] = rng.choice([1, 1, 2])
 
     def _gen_eval(self, rng, case):
-        if rng.random() < 0.4:
+        if rng.random() < 0.5:
             # hot spot: every thread hammers ONE cached dataset with two alternating assignments (warm hits and misses of
             # different keys interleave on the same cache object)
             spec = {"nodes": [{"k": "opt", "key": "A", "id": "n0"}, {"k": "dataset", "name": "HOT", "args": {"a": "n0"}, "id": "n1"},
